@@ -431,3 +431,81 @@ class tenmat_init(Contract):
         rrow, crow, srow, drow = self._rows(S, a)
         yield "accepted-only-if-entry-count-equals-prod(tshape)", N.PRODR(drow) == N.PRODR(srow)
         yield "accepted-only-if-entry-count-equals-row-size-times-column-size", N.PRODR(rrow) * N.PRODR(crow) == N.PRODR(drow)
+
+
+# ======================================================================= element-wise operations on matricized tensors
+
+def sym_tenmat(S, name):
+    """A matricized dense tensor with an r x c data matrix (r, c >= 1); mode lists and tensor shape are symbolic vectors
+    (the element-wise operations do not look into them)."""
+    r, c = S.int(name + "_rows", 1), S.int(name + "_cols", 1)
+    Nn = S.int(name + "_N", 1)
+    rec = Rec("tenmat", dict(data=S.matrix(name + "_data", r, c, "real"),
+                             rindices=S.vector(name + "_rdims", S.nat(name + "_Lr"), "int"),
+                             cindices=S.vector(name + "_cdims", S.nat(name + "_Lc"), "int"),
+                             tshape=S.vector(name + "_tshape", Nn, "int", kind="tuple")))
+    rec.ghost = dict(rows=r, cols=c)
+    return rec
+
+
+def _tenmat_copy(it, pos, kw, self_val):
+    """tenmat.copy(): a new object with an entry-wise copy of the data and the same mode lists / tensor shape (the copying
+    constructor is verified under its own contract)"""
+    d = N.snap(self_val.fields["data"])
+    new = Rec("tenmat", dict(self_val.fields))
+    new.fields["data"] = Arr(d.shape, d.fn, d.dtype)
+    return new
+
+
+class _TenmatPlusMinus(Contract):
+    props = ("C19", "C01")
+    sign = 1
+    inline = ("pyttb.tenmat.tenmat.shape",)
+
+    def abstract_calls(self, S, a):
+        return {T_ + "copy": _tenmat_copy}
+
+    def case_names(self):
+        return ["tenmat", "scalar"]
+
+    def setup(self, S, case):
+        A = sym_tenmat(S, "A")
+        if case == "scalar":
+            return dict(__self__=A, other=S.real("c"), __scalar__=True)
+        return dict(__self__=A, other=sym_tenmat(S, "B"))
+
+    def raises_when(self, S, a):
+        if not a.get("__scalar__"):
+            gA, gB = a["__self__"].ghost, a["other"].ghost
+            yield "matrix-shapes-differ", z3.Or(gA["rows"] != gB["rows"], gA["cols"] != gB["cols"])
+
+    def ensures(self, S, a, ret):
+        A, o = a["__self__"], a["other"]
+        yield "returns-a-new-tenmat", isinstance(ret, Rec) and ret.cls == "tenmat" and ret is not A and ret is not o
+        if not (isinstance(ret, Rec) and isinstance(ret.fields.get("data"), Arr) and ret.fields["data"].ndim == 2):
+            return
+        D, DA = N.snap(ret.fields["data"]), N.snap(A.fields["data"])
+        gA = A.ghost
+        i, j = z3.Int("tm!i"), z3.Int("tm!j")
+        sg = type(self).sign
+        rhs = (lambda i_, j_: T.tz(o)) if a.get("__scalar__") else (lambda i_, j_: T.tz(N.snap(o.fields["data"]).fn(i_, j_)))
+        yield "same-matrix-shape", S.And(S.eq(D.shape[0], gA["rows"]), S.eq(D.shape[1], gA["cols"]))
+        yield "entry-wise-combination", T.ForAll([i, j], z3.Implies(z3.And(0 <= i, i < gA["rows"], 0 <= j, j < gA["cols"]),
+                                                                   T.tz(D.fn(i, j)) == T.tz(DA.fn(i, j)) + sg * rhs(i, j)))
+        yield "mode-lists-and-tensor-shape-of-the-receiver", all(ret.fields.get(k) is A.fields.get(k) for k in ("rindices", "cindices", "tshape"))
+
+
+@register
+class tenmat_add(_TenmatPlusMinus):
+    qual = T_ + "__add__"
+    doc = ("A + B for two matricized tensors: the matrix shapes must be equal (else raises -- equal tensor shapes are not "
+           "enough); the result is a new tenmat with A's mode lists and tensor shape whose data are the entry-wise sums; "
+           "A + c adds the scalar to every entry.")
+    sign = 1
+
+
+@register
+class tenmat_sub(_TenmatPlusMinus):
+    qual = T_ + "__sub__"
+    doc = "A - B / A - c: as A + B with entry-wise differences."
+    sign = -1
